@@ -133,7 +133,8 @@ class GenericProbe:
             I.exec_block(s.body, env)
             rec["outcome"] = "continue"
         except _Break:
-            rec["outcome"] = "break"
+            # a break before this iteration's M-step leaves the loop without a step: the same as a false guard
+            rec["outcome"] = "break" if rec.get("avg_terms") else "exit"
         except _Continue:
             rec["outcome"] = "continue"
         rec["body_path"] = list(I.path[n1:])
@@ -186,20 +187,17 @@ def run_probe(I, probe, thunk, key):
 
 
 def predicates(tr, paths):
-    g_true, brk, cont = [], [], []
+    """(stays in the loop for one more step, leaves after the step, continues after the step) as conditions on the loop-head state;
+    'leaves without a step' (guard false, or a break before the M-step of the iteration) is the complement of the first"""
+    exits, brk, cont = [], [], []
     for pc, (kk, r) in paths:
         if kk != "ok" or "outcome" not in r:
             continue
-        gp = T.c_and(*r.get("guard_path", [])) if r.get("guard_path") else T.TRUE
-        zg = tr.cond(gp)
-        if r["outcome"] == "exit":
-            continue
-        g_true.append(zg)
-        bp = T.c_and(*r.get("body_path", [])) if r.get("body_path") else T.TRUE
-        zb = tr.cond(bp)
-        (brk if r["outcome"] == "break" else cont).append(z3.And(zg, zb))
+        allc = list(r.get("guard_path", [])) + list(r.get("body_path", []))
+        z = tr.cond(T.c_and(*allc)) if allc else z3.BoolVal(True)
+        {"exit": exits, "break": brk}.get(r["outcome"], cont).append(z)
     orz = lambda xs: z3.Or(*xs) if xs else z3.BoolVal(False)
-    return orz(g_true), orz(brk), orz(cont)
+    return z3.Not(orz(exits)), orz(brk), orz(cont)
 
 
 def combined_predicates(tr, first, generic, kz):
@@ -424,7 +422,8 @@ def one_config(prefix, trainer, has_thr, has_max, out):
                 if r.get("outcome") in (None, "exit"):
                     continue
                 cl = []
-                if phase == "generic":
+                if phase == "generic" and r.get("outcome") == "continue":
+                    # the loop-carried state has to be re-established only on the paths that go round again
                     probe.inductive(r, F.extend(pc), label, cl, prefix + ".loop.body")
                 # machine' == spec EM(machine, whole X)
                 ms = mk_machine()
@@ -510,7 +509,8 @@ def kmeans_fit_loop(prefix, has_thr=True, has_max=True):
                 if r.get("outcome") in (None, "exit"):
                     continue
                 cl = []
-                if phase == "generic":
+                if phase == "generic" and r.get("outcome") == "continue":
+                    # the loop-carried state has to be re-established only on the paths that go round again
                     probe.inductive(r, F.extend(pc), label, cl, prefix + ".loop.body")
                 m = r["machine"]
                 amd = m.fields.get("average_min_distance")
